@@ -19,11 +19,26 @@ func ctxWithDefaultTimeout() (ctx context.Context, cancel context.CancelFunc) {
 }
 
 // newCtxWithTimeoutCons returns a context constructor that creates a simple
-// context with the given timeout.
+// context with the given timeout.  A zero timeout means no timeout.
 func newCtxWithTimeoutCons(timeout time.Duration) (c contextConstructor) {
 	parent := context.Background()
 
 	return func() (ctx context.Context, cancel context.CancelFunc) {
-		return context.WithTimeout(parent, timeout)
+		return ctxWithOptionalTimeout(parent, timeout)
 	}
+}
+
+// ctxWithOptionalTimeout returns a child context of parent that is cancelled
+// after timeout, or, if timeout is zero, only when cancel is called.  The
+// latter is how the configuration documents a zero timeout; a context created
+// by [context.WithTimeout] with a zero timeout has expired before it is used.
+func ctxWithOptionalTimeout(
+	parent context.Context,
+	timeout time.Duration,
+) (ctx context.Context, cancel context.CancelFunc) {
+	if timeout == 0 {
+		return context.WithCancel(parent)
+	}
+
+	return context.WithTimeout(parent, timeout)
 }
